@@ -5,7 +5,7 @@ CONSTANTS
   EditFields = FALSE
   SetVals = {101}
   SetSpells = {"U"}
-  Ops = {"get", "set", "del", "first", "last", "before", "after", "sort", "sortby", "insert", "append"}
+  Ops = {"get", "set", "del", "first", "last", "before", "after", "sort", "sortby", "insert", "append", "appendo", "inserto"}
   Emit = TRUE
 SPECIFICATION Spec
 INVARIANT NoEmptyPara
